@@ -1,7 +1,7 @@
 (* The zone-file parser model is total (no Panic, fuel suffices) and what it builds is valid:
    owners are good names, RDATA passes the model of Rdata::validate. *)
 From QV Require Import Base.ListX Model.NameWire Spec.NameWireS Spec.NameRepr Proofs.NameWireP
-  Model.ZfReader Model.ZfParser Proofs.ZfStdP Proofs.ZfReaderP Proofs.ZfNameP.
+  Model.ZfReader Model.ZfParser Spec.ZfValidS Proofs.ZfStdP Proofs.ZfReaderP Proofs.ZfNameP.
 
 Local Open Scope nat_scope.
 
